@@ -13,12 +13,12 @@ import (
 
 func TestC07(t *testing.T) {
 	rapid.Check(t, func(t *rapid.T) {
-		sch := genSchema(t, SchemaCfg{Key: 1, Late: true, Merges: true, MinCols: 1, MaxCols: 6, NoLenMerge: KFActive("f15-difflen-merge-reorder")})
+		sch := genSchema(t, SchemaCfg{Key: 1, Late: true, Merges: true, MinCols: 1, MaxCols: 6})
 		mc := NewMachine("C07", sch, column.Options{})
 		defer func() { mc.Close() }()
 		defer mc.Guard(t)
 		cfg := TxnCfg{Prop: "C07", MaxSteps: 10, Deletes: true, Inserts: true, Merges: true, OwnUpdates: true, Direct: true,
-			NoStoreOnDel: KFActive("f11-store-and-delete-same-txn")}
+			NoStoreOnDel: KFActive("f11-store-and-delete-same-txn"), NoOpAfterLenMerge: KFActive("f15-difflen-merge-reorder")}
 		restores, mutatedAfterRestore, richSnapshot := 0, false, false
 		mutate := func() {
 			if restores > 0 {
